@@ -281,7 +281,7 @@ func cmdCheck(args []string) int {
 			}
 			env := enc.newSpecEnv(eng.clauses[lm], nil, h0, h0)
 			goal := enc.evalBool(env, clauseExpr(eng.clauses[lm]))
-			obs = append(obs, &Obligation{Name: "lemma." + lm.Label, Kind: "lemma", Func: "lemma " + lm.Label, Text: lm.Text, Goal: not(goal), Script: enc.sc})
+			obs = append(obs, &Obligation{Name: "lemma." + lm.Label, Kind: "lemma", Func: "lemma " + lm.Label, Text: lm.Text, Goal: not(goal), Script: enc.sc, NAsserts: -1})
 		}
 	}
 	// SMT lemma files
@@ -302,7 +302,7 @@ func cmdCheck(args []string) int {
 		}
 		sc := newScript()
 		sc.raw = string(txt)
-		obs = append(obs, &Obligation{Name: "lemmafile." + strings.TrimSuffix(filepath.Base(lf), ".smt2"), Kind: "lemma", Func: filepath.Base(lf), Text: firstComment(string(txt)), Goal: "", Script: sc})
+		obs = append(obs, &Obligation{Name: "lemmafile." + strings.TrimSuffix(filepath.Base(lf), ".smt2"), Kind: "lemma", Func: filepath.Base(lf), Text: firstComment(string(txt)), Goal: "", Script: sc, NAsserts: -1})
 	}
 	dir, _ := os.MkdirTemp("", "gowp-smt-")
 	if !*keep {
